@@ -371,11 +371,23 @@ def rule_helpers(rep: Report, repo: Repo):
     ft = repo.find("number_ordered_form::NumberOrderedForm::filter_terms", R)
     comps = [n for n in ast.walk(ft) if isinstance(n, (ast.GeneratorExp, ast.ListComp)) and n.generators[0].ifs
              and norm(n.generators[0].iter) in ("self.args[1]", "self.terms.items()")]
-    if len(comps) != 1 or len(comps[0].generators[0].ifs) != 1 or not isinstance(comps[0].generators[0].target, ast.Tuple):
-        raise AnalysisError(R, "filter_terms: selection of the terms not found as one filtered comprehension")
-    gen = comps[0].generators[0]
-    pw = norm(gen.target.elts[0])
-    sel = inline(gen.ifs[0], Scope(repo.trees["number_ordered_form"], ft))
+    if len(comps) == 1 and len(comps[0].generators[0].ifs) == 1 and isinstance(comps[0].generators[0].target, ast.Tuple):
+        gen = comps[0].generators[0]
+        pw = norm(gen.target.elts[0])
+        sel = inline(gen.ifs[0], Scope(repo.trees["number_ordered_form"], ft))
+    else:
+        # the same selection as a loop that appends the kept terms
+        from .sem import list_built_by_loop
+        built = None
+        for acc in {norm(c.func.value) for c in ast.walk(ft) if isinstance(c, ast.Call) and isinstance(c.func, ast.Attribute) and c.func.attr == "append"}:
+            built = list_built_by_loop(ft.body, acc) or built
+        if built is None or len(built[2]) != 1 or not isinstance(built[0], ast.Tuple) or norm(built[1]) not in ("self.args[1]", "self.terms.items()") \
+                or not built[2][0][0]:
+            raise AnalysisError(R, "filter_terms: selection of the terms not found as one filtered comprehension or one appending loop")
+        pw = norm(built[0].elts[0])
+        conds = built[2][0][0]
+        sel = conds[0] if len(conds) == 1 else ast.BoolOp(op=ast.And(), values=list(conds))
+        sel = inline(sel, Scope(repo.trees["number_ordered_form"], ft))
     MATCH = (f"any((all(((_v0 - _v1).is_zero is not False for _v0, _v1 in zip({pw}, _v2))) for _v2 in conditions))",
              f"any((all(((_v1 - _v2).is_zero is not False for _v1, _v2 in zip({pw}, _v0))) for _v0 in conditions))")
 
